@@ -13,6 +13,7 @@ Definition proved_family (r : report) : bool :=
   match r with
   | RSgr _ => false
   | RXterm _ mods _ => mods <? 8      (* known finding C04-key-mask: the table stops at mask 7 *)
+  | RFaceReport p => negb (sgr_inexpressible p)   (* known finding: 7/27/39/49, see face_report_recorded *)
   | _ => true
   end.
 
@@ -36,7 +37,7 @@ Proof.
   - apply single_tc_ok, Hwf.
   - apply single_tc_fail, Hwf.
   - apply single_paste, Hwf.
-  - apply single_facerep, Hwf.
+  - apply single_facerep; [exact Hwf| apply negb_true_iff, Hp].
 Qed.
 
 Theorem single_report r rest :
@@ -112,3 +113,9 @@ Qed.
 Theorem wf_self_delimiting r :
   proved_family r = true -> prod_wf r = true -> self_delimiting (print r) = true.
 Proof. intros Hp Hw. apply single_self_delimiting, single_proved; assumption. Qed.
+
+(* the face report with inexpressible parameters: exactly the recorded behaviour *)
+Theorem face_report_recorded_decode p rest :
+  sgr_wf p = true ->
+  prod_decode (print (RFaceReport p) ++ rest) = (face_report_recorded p :: fst (prod_decode rest), snd (prod_decode rest)).
+Proof. intros Hwf. apply decode_single, single_facerep_lib, Hwf. Qed.
